@@ -12,6 +12,7 @@ import (
 
 	"github.com/hashicorp/raft"
 	"github.com/rqlite/rqlite/v10/internal/fsutil"
+	"github.com/rqlite/rqlite/v10/internal/verifhook"
 	"github.com/rqlite/rqlite/v10/snapshot/proto"
 	pb "google.golang.org/protobuf/proto"
 )
@@ -202,6 +203,9 @@ func (s *Sink) Close() (retErr error) {
 		if retErr != nil {
 			stats.Add(sinkErrors, 1)
 			if s.localWALDir != "" && s.fatalFn != nil {
+				if verifhook.Fatal("snapshot.sink.close.fatal", retErr) {
+					return
+				}
 				s.fatalFn(retErr)
 			}
 		} else if s.localWALDir != "" {
@@ -211,6 +215,9 @@ func (s *Sink) Close() (retErr error) {
 		}
 	}()
 
+	if err := verifhook.Hit("snapshot.sink.close.begin"); err != nil {
+		return err
+	}
 	if s.localWALDir != "" {
 		// IncrementalFileSnapshot: atomically move the WAL directory into the
 		// snapshot directory, then redistribute the WAL files.
@@ -218,28 +225,49 @@ func (s *Sink) Close() (retErr error) {
 		if err := os.Rename(s.localWALDir, movedDir); err != nil {
 			return fmt.Errorf("failed to move WAL directory into snapshot directory: %v", err)
 		}
+		if err := verifhook.Hit("snapshot.sink.close.after-waldir-move"); err != nil {
+			return err
+		}
 		sd := NewStagingDir(movedDir)
 		if err := sd.MoveWALFilesTo(s.snapTmpDirPath); err != nil {
 			return fmt.Errorf("failed to move WAL files into snapshot directory: %v", err)
 		}
+		if err := verifhook.Hit("snapshot.sink.close.after-wal-redistribute"); err != nil {
+			return err
+		}
 		if err := os.Remove(movedDir); err != nil {
 			return fmt.Errorf("failed to remove temporary WAL directory: %v", err)
+		}
+		if err := verifhook.Hit("snapshot.sink.close.after-waldir-remove"); err != nil {
+			return err
 		}
 	} else {
 		if err := s.sinkW.Close(); err != nil {
 			return fmt.Errorf("failed to close sink: %v", err)
+		}
+		if err := verifhook.Hit("snapshot.sink.close.after-fullsink-close"); err != nil {
+			return err
 		}
 	}
 
 	if err := writeMeta(s.snapTmpDirPath, s.meta); err != nil {
 		return fmt.Errorf("failed to write meta: %v", err)
 	}
+	if err := verifhook.Hit("snapshot.sink.close.after-meta"); err != nil {
+		return err
+	}
 
 	if err := fsutil.SyncDirMaybe(s.snapTmpDirPath); err != nil {
 		return err
 	}
+	if err := verifhook.Hit("snapshot.sink.close.after-tmp-sync"); err != nil {
+		return err
+	}
 	if err := os.Rename(s.snapTmpDirPath, s.snapDirPath); err != nil {
 		return fmt.Errorf("failed to rename snapshot directory: %v", err)
+	}
+	if err := verifhook.Hit("snapshot.sink.close.after-rename"); err != nil {
+		return err
 	}
 
 	if s.stc != nil {
@@ -247,7 +275,13 @@ func (s *Sink) Close() (retErr error) {
 			return fmt.Errorf("failed to set due next to incremental: %v", err)
 		}
 	}
+	if err := verifhook.Hit("snapshot.sink.close.after-duenext"); err != nil {
+		return err
+	}
 	if err := fsutil.SyncDirMaybe(s.dir); err != nil {
+		return err
+	}
+	if err := verifhook.Hit("snapshot.sink.close.after-dir-sync"); err != nil {
 		return err
 	}
 
